@@ -576,6 +576,12 @@ func c05Exec(h *c05Hist, line string) (res string) {
 		return E(err)
 	// ---- stream writer
 	case "stream.new":
+		// a StreamWriter must be flushed (documented contract): opening the next one ends the
+		// previous one, so that no history saves a workbook with an unterminated stream
+		if h.sw != nil {
+			_ = h.sw.Flush()
+			h.sw = nil
+		}
 		sw, err := f.NewStreamWriter(S(0))
 		if err != nil {
 			return "ERR"
